@@ -695,6 +695,11 @@ const PATTERNS: &[(&str, &str)] = &[
     (".*", "regex"),
     ("a.?", "regex"),
     ("[ab]+", "regex"),
+    // alternation with a prefix branch first / lazy repetition: the preferred match of an
+    // unanchored search stops short of the end of the line
+    ("a|ab", "regex"),
+    ("a(|b)", "regex"),
+    ("a.*?", "regex"),
     ("a", "no-eol"),
     ("b", "no-eol"),
     ("a\\x20b", "escaped"),
